@@ -94,6 +94,14 @@ pub fn ret_matches(obs: &Value, exp: &Value) -> (bool, bool) {
                     if ov != ev {
                         exact = false;
                     }
+                } else if k == "fin" {
+                    // what a provided method handed out: the same items (any order), same verdict, same remainder
+                    if ov["some"] != ev["some"] || ov["after"] != ev["after"] || canon_multiset(&ov["r"]) != canon_multiset(&ev["r"]) {
+                        ok = false;
+                    }
+                    if ov["r"] != ev["r"] {
+                        exact = false;
+                    }
                 } else if ov != ev {
                     ok = false;
                 }
@@ -158,6 +166,11 @@ pub fn strip_tags(v: &Value, which: u8) -> Value {
             }
             if let Some(x) = o.get("then") {
                 m.insert("then".to_string(), strip_tags(x, which));
+            }
+            if let Some(x) = o.get("fin") {
+                let mut f = x.clone();
+                f["r"] = items(&x["r"], which);
+                m.insert("fin".to_string(), f);
             }
             Value::Object(m)
         }
